@@ -377,6 +377,18 @@ class ExprMixin:
                 return [(st, True)]
             cs = [c for c in cs if c is not False]
             return [(st, z3.Or(*cs) if cs else False)]
+        if isinstance(coll, SList) and isinstance(x, (SNode, SStr, SNone)):
+            xt = x.t if not isinstance(x, SNone) else None
+            probe = coll.elem(z3.Int('probe'))
+            if xt is None or not isinstance(probe, type(x)):
+                raise ToolLimit('membership of %r in %r' % (x, coll))
+            b = self.W.fresh('inlist', L.B)
+            w = self.W.fresh('wit', L.I)
+            k = z3.Int('k!in%d' % self.W.counter)
+            st.assume(z3.Implies(b, z3.And(0 <= w, w < coll.length, coll.elem(w).t == xt)))
+            st.assume(z3.Implies(z3.Not(b), z3.ForAll([k], z3.Implies(z3.And(0 <= k, k < coll.length), coll.elem(k).t != xt),
+                                                      patterns=[coll.elem(k).t])))
+            return [(st, b)]
         if isinstance(coll, SSet):
             # membership in {key(e) for e in base}: skolemised both ways (no exists under forall)
             b = self.W.fresh('inset', L.B)
